@@ -1129,7 +1129,7 @@ impl HashColumn {
 	}
 
 	/// A node stores its number of children in a single byte.
-	fn check_node_representable(node: &NewNode) -> Result<()> {
+	pub fn check_node_representable(node: &NewNode) -> Result<()> {
 		if node.children.len() > u8::MAX as usize {
 			return Err(Error::InvalidInput(format!(
 				"Tree node has {} children, at most {} are supported",
